@@ -249,8 +249,10 @@ def run_case(case: dict[str, Any]) -> dict[str, Any]:
                 # with kills an attempt may be repeated verbatim: keep only the attempts whose outcome could be recorded
                 if not clean and a['ret'] is not None and a['ret'].get('post_mortem'):
                     continue
-                if not clean and a['ret'] is not None and w.incs.get(a['call']['inc']) is not None and w.incs[a['call']['inc']].killed:
-                    # was the outcome of this attempt ever written to the object? (a killed operator may have lost it)
+                inc_a = w.incs.get(a['call']['inc'])
+                if a['ret'] is not None and inc_a is not None and (inc_a.killed or inc_a.t_end is not None):
+                    # was the outcome of this attempt ever written to the object? A killed operator may have lost it; so does one that is stopped
+                    # while sibling handlers of the same cycle are still in flight (the cycle is cancelled before its results are persisted)
                     if not any(r.client == a['call']['inc'] and r.landed_uid == uid and r.g > a['ret']['g'] for r in ix.writes):
                         continue
                 if a['ret'] is not None and a['ret']['outcome'] == 'cancelled':
